@@ -38,6 +38,7 @@ def run_tlc_struct(chk, invs, ninter, emit_mod, simulate=None, timeout=1500, fre
     consts = dict(CONSTS, NInter=ninter, FreeSchedule=free_schedule, EmitMod=emit_mod)
     cfg = tlc.make_cfg(constants=consts, invariants=list(invs) + ["Emit"])
     res = tlc.run_tlc("MC_Struct", cfg, workers=chk.nproc, timeout=timeout, simulate=simulate,
+                      coverage=(chk.tier == "thorough" and simulate is None and ninter == 1),
                       constants_for_summary={"NInter": ninter, "EmitMod": emit_mod, "FreeSchedule": free_schedule,
                                              "invariants": list(invs)})
     return res
